@@ -251,7 +251,7 @@ class C03(core.Check):
         "relations, of the simple validators and of Chop.invert are translated from the source text (ast) at every run and proved "
         "equal to the model (T_C03_translated_*); in those theorems log/int, ceil, brentq and fractional powers are oracle slots "
         "under the model's validators, and the brentq brackets / fcnt / fexp are pinned syntactically only. Chop.__post_init__ and "
-        "copy_preserving are not translated (model + correspondence)."
+        "copy_preserving are not translated (model + correspondence). Round 6b: one tie theorem per relation; locals compared up to renaming."
     )
 
     # ------------------------------------------------------------------ generators
@@ -266,6 +266,9 @@ class C03(core.Check):
             cases.append(self._gen_boundary(rng))
         for _ in range(n // 10):
             cases.append(self._gen_grading(rng))
+        cases.extend(self._uniform_section_list())
+        for _ in range(n // 30):
+            cases.append(self._gen_uniform_sections(rng))
         for _ in range(n // 3):
             cases.append(self._gen_rel(rng))
         cases.extend(self._history_list())
@@ -614,6 +617,56 @@ class C03(core.Check):
             i = rng.randrange(len(chops))
             chops.append({"ratio": chops[i]["ratio"], "given": chops[i]["given"], "same_as": i, "invert_first": rng.random() < 0.6})
         return {"kind": "grading", "L": L, "chops": chops}
+
+    # round 6b: multi-section gradings whose sections are ALL uniform (total expansion exactly 1, written in every way
+    # the API offers) but differ in length ratio and/or count: seen from the other end the divisions must still come
+    # in reverse order, although every expansion is its own reciprocal
+    @staticmethod
+    def _uniform_chop(rng: random.Random, sub: float, form: int) -> dict:
+        n = rng.choice([1, 2, 3, 5, 8, 13, 40])
+        size = sub / rng.choice([1.5, 3, 7.3, 12, 30.5])
+        return [
+            {"count": n},
+            {"start_size": size},
+            {"end_size": size},
+            {"count": n, "c2c_expansion": 1},
+            {"count": n, "c2c_expansion": 1.0},
+            {"count": max(n, 2), "total_expansion": 1.0},
+            {"start_size": size, "c2c_expansion": 1.0},
+            {"end_size": size, "total_expansion": 1},
+            {"start_size": size, "end_size": size},
+        ][form % 9]
+
+    def _gen_uniform_sections(self, rng: random.Random) -> dict:
+        L = self._length(rng)
+        ratios = rng.choice([[0.25, 0.75], [0.1, 0.9], [0.5, 0.5], [0.5, 0.3, 0.2], [0.2, 0.2, 0.6], [0.6, 0.3, 0.1], [0.4, 0.35, 0.25, 0.0]])
+        ratios = [q for q in ratios if q > 0]
+        chops = [{"ratio": q, "given": self._uniform_chop(rng, L * q, rng.randrange(9))} for q in ratios]
+        if rng.random() < 0.25:  # one graded section among uniform ones (control: the usual path)
+            chops[rng.randrange(len(chops))]["given"] = {"count": rng.randint(2, 9), "c2c_expansion": rng.choice([1.2, 0.8])}
+        return {"kind": "grading", "L": L, "chops": chops, "why": "round 6b: uniform sections of unequal ratio / count"}
+
+    @staticmethod
+    def _uniform_section_list() -> List[dict]:
+        why = "round 6b: every section uniform, sections unequal: the reversed grading lists them in reverse order"
+        return [
+            {"kind": "grading", "L": 1.0, "why": why,
+             "chops": [{"ratio": 0.25, "given": {"count": 5}}, {"ratio": 0.75, "given": {"count": 3}}]},
+            {"kind": "grading", "L": 2.0, "why": why,
+             "chops": [{"ratio": 0.2, "given": {"start_size": 0.01}}, {"ratio": 0.8, "given": {"start_size": 0.1}}]},
+            {"kind": "grading", "L": 0.05, "why": why,
+             "chops": [{"ratio": 0.5, "given": {"count": 4}}, {"ratio": 0.3, "given": {"count": 10}}, {"ratio": 0.2, "given": {"count": 1}}]},
+            {"kind": "grading", "L": 10.0, "why": why,
+             "chops": [{"ratio": 0.1, "given": {"count": 6, "c2c_expansion": 1}}, {"ratio": 0.9, "given": {"count": 6}}]},
+            {"kind": "grading", "L": 7, "why": why,
+             "chops": [{"ratio": 0.5, "given": {"count": 4}}, {"ratio": 0.5, "given": {"count": 9}}]},
+            {"kind": "grading", "L": 300.0, "why": why,
+             "chops": [{"ratio": 0.3, "given": {"end_size": 2.5, "total_expansion": 1}}, {"ratio": 0.7, "given": {"count": 12, "total_expansion": 1.0}}]},
+            # controls: symmetric (reversal is invisible), single section
+            {"kind": "grading", "L": 1.0, "why": why,
+             "chops": [{"ratio": 0.5, "given": {"count": 4}}, {"ratio": 0.5, "given": {"count": 4}}]},
+            {"kind": "grading", "L": 1.0, "why": why, "chops": [{"ratio": 1.0, "given": {"count": 7}}]},
+        ]
 
     def _exhaustive(self) -> List[dict]:
         """bounded exhaustive part of the thorough tier: all counts 1..200 x a fixed ratio set, all pairs with count"""
